@@ -67,6 +67,17 @@ Theorem C10_dfa_overwritten_modifiers_unused :
           (dfa_modifiers_overwritten_at_build ++ dfa_modifiers_overwritten_at_rebuild) = true.
 Proof. exact dfa_overwritten_modifiers_unused. Qed.
 
+(* the lazy DFAs of a validator, identified with what build_dfa is given (expressions, nocase, dot_all, direction),
+   are the same whether the direction literals are taken from the construction code or from the reload code *)
+Theorem C10_reload_same_automata :
+  forall m v, validator_automata rebuild_sites m v = validator_automata build_sites m v.
+Proof. exact reload_same_automata. Qed.
+
+Theorem C10_reload_pinned_refuted :
+  validator_automata pinned_rebuild_sites greedy_witness_modifiers greedy_witness
+  <> validator_automata build_sites greedy_witness_modifiers greedy_witness.
+Proof. exact reload_pinned_refuted. Qed.
+
 (* finding 9.9 (fixed in /repo): with the pinned literal the agreement fails *)
 Theorem C10_rebuild_params_pinned_refuted : list_eqb site_eqb build_sites pinned_rebuild_sites = false.
 Proof. exact rebuild_params_pinned_refuted. Qed.
@@ -92,4 +103,6 @@ Print Assumptions C10_file_canonical.
 Print Assumptions C10_rebuild_params_agree.
 Print Assumptions C10_rebuild_sites_equal.
 Print Assumptions C10_dfa_overwritten_modifiers_unused.
+Print Assumptions C10_reload_same_automata.
+Print Assumptions C10_reload_pinned_refuted.
 Print Assumptions C10_rebuild_params_pinned_refuted.
